@@ -15,18 +15,21 @@
 
 using namespace verif;
 
-struct Mapping { uintptr_t base; size_t len; void *raw; size_t rawlen; void *bookkeeping = nullptr; };
+struct Mapping { uintptr_t base; size_t len; void *raw; size_t rawlen; void *bookkeeping = nullptr; std::vector<uint8_t> poison; /* 1 = poisoned; poisoning policy only */ };
 struct PolState { std::map<uintptr_t, Mapping> maps; uint64_t n_map = 0, n_unmap = 0; bool bad = false; std::string why; long fail_next = -1; };
 static PolState *g_ps;
 // re-entrant policy variant: the policy keeps one bookkeeping record per mapping and allocates it from the pool it serves
 // (the property promises this works because map/unmap are never called with a pool lock held)
 static bool g_reentrant = false;
 static thread_local int t_policy_depth = 0;
-struct SPolicy;
 static void *reentrant_alloc(size_t n);
 static void reentrant_free(void *p);
+static std::string g_prop = "C05"; // "C03": the same driver run for the poisoning clause of C03 across threads (only poison verdicts are armed)
 
-struct SPolicy {
+// POISON: the policy has poison/unpoison/unpoison_expand callbacks (each one a scheduling point) and keeps a byte shadow
+template<bool POISON>
+struct SPolicyT {
+	static constexpr bool poisoning = POISON;
 	static constexpr size_t pagesize = 0x1000, slabsize = 0x1000, sb_size = 0x1000;
 	static constexpr int num_buckets = 5; // classes 8..128; larger requests get their own reservation
 	void no_lock(const char *cb) {
@@ -40,10 +43,21 @@ struct SPolicy {
 		uintptr_t base = ((uintptr_t)raw + align - 1) & ~(uintptr_t)(align - 1);
 		void *bk = nullptr;
 		if(g_reentrant && t_policy_depth == 0) { t_policy_depth++; bk = reentrant_alloc(24); t_policy_depth--; }
-		g_ps->maps[base] = {base, len, raw, rawlen, bk};
+		g_ps->maps[base] = {base, len, raw, rawlen, bk, POISON ? std::vector<uint8_t>(len, 1) : std::vector<uint8_t>()};
 		g_ps->n_map++;
 		return base;
 	}
+	static void shade(void *p, size_t n, uint8_t v, const char *cb) {
+		uintptr_t a = (uintptr_t)p;
+		auto it = g_ps->maps.upper_bound(a);
+		if(it == g_ps->maps.begin()) { if(!g_ps->bad) { g_ps->bad = true; g_ps->why = strf("poison-outside-mapping|Policy::%s(%p,%zu) does not lie inside a mapping", cb, p, n); } return; }
+		--it;
+		if(a + n > it->second.base + it->second.len) { if(!g_ps->bad) { g_ps->bad = true; g_ps->why = strf("poison-outside-mapping|Policy::%s(%p,%zu) runs past its mapping", cb, p, n); } return; }
+		for(size_t i = 0; i < n; i++) it->second.poison[a - it->second.base + i] = v;
+	}
+	void poison(void *p, size_t n) requires POISON { sched::yield_point("policy.poison", n); shade(p, n, 1, "poison"); }
+	void unpoison(void *p, size_t n) requires POISON { if(n > sizeof(void *)) sched::yield_point("policy.unpoison", n); shade(p, n, 0, "unpoison"); } // (the per-object link-word calls of slab construction are no scheduling points: 62 of them per slab would only blow up the schedule space)
+	void unpoison_expand(void *p, size_t n) requires POISON { sched::yield_point("policy.unpoison_expand", n); shade(p, n, 0, "unpoison_expand"); }
 	void unmap(uintptr_t base, size_t len) {
 		no_lock("unmap");
 		sched::yield_point("policy.unmap", len);
@@ -56,10 +70,18 @@ struct SPolicy {
 		if(bk && t_policy_depth == 0) { t_policy_depth++; reentrant_free(bk); t_policy_depth--; }
 	}
 };
-using Pool = frg::slab_pool<SPolicy, sched::SchedMutex>;
-static Pool *g_pool_for_policy = nullptr;
-static void *reentrant_alloc(size_t n) { count("reentrant_policy_allocations"); return g_pool_for_policy ? g_pool_for_policy->allocate(n) : nullptr; }
-static void reentrant_free(void *p) { if(g_pool_for_policy) g_pool_for_policy->free(p); }
+static std::function<void *(size_t)> g_pool_alloc;
+static std::function<void(void *)> g_pool_free;
+static void *reentrant_alloc(size_t n) { count("reentrant_policy_allocations"); return g_pool_alloc ? g_pool_alloc(n) : nullptr; }
+static void reentrant_free(void *p) { if(g_pool_free) g_pool_free(p); }
+static bool poisoned_in(uintptr_t a, size_t n, size_t *at) { // any poisoned byte in [a, a+n)?
+	auto it = g_ps->maps.upper_bound(a);
+	if(it == g_ps->maps.begin()) return false;
+	--it;
+	if(it->second.poison.empty() || a + n > it->second.base + it->second.len) return false;
+	for(size_t i = 0; i < n; i++) if(it->second.poison[a - it->second.base + i]) { *at = i; return true; }
+	return false;
+}
 
 struct Block { size_t req, size; uint64_t pat; int owner; };
 struct Mon {
@@ -71,8 +93,15 @@ struct Mon {
 
 static uint8_t pat_byte(uint64_t pat, size_t i) { return (uint8_t)((pat >> ((i % 8) * 8)) ^ (i * 37)); }
 
+template<bool POISON>
 struct Ctx {
+	using Pool = frg::slab_pool<SPolicyT<POISON>, sched::SchedMutex>;
 	Pool *pool; Mon mon; PolState ps;
+	static size_t owned(const Block &b) { return POISON ? b.req : b.size; } // with a poisoning policy only the requested bytes are the caller's
+	void poison_check(uintptr_t a, const Block &b, const char *when) {
+		size_t at = 0;
+		if(POISON && poisoned_in(a, b.req, &at)) mon.fail("live-block-poisoned", strf("byte %zu of the %zu requested bytes of the live block %p (owner: worker %d) is poisoned %s", at, b.req, (void *)a, b.owner, when));
+	}
 	std::vector<void *> slots; // shared hand-off slots (indices are script parameters)
 	uint64_t serial = 0;
 	void *do_alloc(int me, size_t n, const char *how = "allocate", void *old = nullptr) {
@@ -88,14 +117,16 @@ struct Ctx {
 		if(mon.bad) return p;
 		Block b{n, s, ++serial * 0x9E3779B97F4A7C15ull, me};
 		mon.live[a] = b;
-		for(size_t i = 0; i < s; i++) ((uint8_t *)p)[i] = pat_byte(b.pat, i); // plain stores by the owner
+		poison_check(a, b, strf("when %s returns it", how).c_str());
+		for(size_t i = 0; i < owned(b); i++) ((uint8_t *)p)[i] = pat_byte(b.pat, i); // plain stores by the owner
 		mon.allocs++;
 		return p;
 	}
 	bool check_and_forget(void *p, const char *when) {
 		auto it = mon.live.find((uintptr_t)p);
 		if(it == mon.live.end()) { mon.fail("harness", "free of unknown block"); return false; }
-		for(size_t i = 0; i < it->second.size; i++) if(((uint8_t *)p)[i] != pat_byte(it->second.pat, i)) { mon.fail("content-changed", strf("byte %zu of a live block changed without its owner writing it (%s)", i, when)); break; }
+		for(size_t i = 0; i < owned(it->second); i++) if(((uint8_t *)p)[i] != pat_byte(it->second.pat, i)) { mon.fail("content-changed", strf("byte %zu of a live block changed without its owner writing it (%s)", i, when)); break; }
+		poison_check(it->first, it->second, when);
 		mon.live.erase(it);
 		return true;
 	}
@@ -109,14 +140,17 @@ struct Ctx {
 
 // script op: kind 0 alloc(size)->slot, 1 free(slot), 2 deallocate(slot), 3 realloc(slot,size)
 struct Op { int kind; int slot; size_t size; };
-struct Scenario { const char *name; std::vector<std::pair<int, size_t>> prefill; /* (slot, size) */ std::vector<std::vector<Op>> workers; int nslots; bool reentrant = false; };
+struct Scenario { const char *name; std::vector<std::pair<int, size_t>> prefill; /* (slot, size) */ std::vector<std::vector<Op>> workers; int nslots; bool reentrant = false; bool poison = false; int quick_bound = 3; };
 
-static void run_world(const char *mode, long long idx, const Scenario &sc, sched::Strategy &strat) {
+template<bool POISON>
+static void run_world_t(const char *mode, long long idx, const Scenario &sc, sched::Strategy &strat) {
 	begin_case(mode, idx);
-	Ctx cx; g_ps = &cx.ps; sched::g_smx = {};
-	SPolicy pol;
-	cx.pool = new Pool(pol);
-	g_reentrant = sc.reentrant; g_pool_for_policy = cx.pool; t_policy_depth = 0;
+	Ctx<POISON> cx; g_ps = &cx.ps; sched::g_smx = {};
+	SPolicyT<POISON> pol;
+	cx.pool = new typename Ctx<POISON>::Pool(pol);
+	g_reentrant = sc.reentrant; t_policy_depth = 0;
+	g_pool_alloc = [&](size_t n) { return cx.pool->allocate(n); }; g_pool_free = [&](void *q) { cx.pool->free(q); };
+	if(POISON) count("schedules_with_poisoning_policy");
 	cx.slots.assign(sc.nslots, nullptr);
 	// prefill by the driver thread
 	for(auto &pf : sc.prefill) { void *p = cx.do_alloc(-1, pf.second); if(pf.first >= 0) cx.slots[pf.first] = p; }
@@ -142,7 +176,9 @@ static void run_world(const char *mode, long long idx, const Scenario &sc, sched
 	if(cx.ps.n_map >= 2 + (sc.prefill.empty() ? 0 : 1)) count("schedules_with_concurrent_slab_construction_or_extra_map");
 	std::string tail; for(size_t k = w.trace.size() > 60 ? w.trace.size() - 60 : 0; k < w.trace.size(); k++) tail += w.trace[k] + " ";
 	if(idx == 1) sample(std::string(mode) + " schedule #1, scripts {" + sdesc + "} observed points: " + tail.substr(0, 900), 40);
-	auto flag = [&](const std::string &key, const std::string &what) { case_detail("%s :: last points: %s", sdesc.c_str(), tail.substr(0, 3000).c_str()); violation("C05:slab:" + key, what + " [" + std::string(sc.name) + ": " + sdesc + "]"); };
+	auto flag = [&](const std::string &key, const std::string &what) {
+		if(g_prop != "C05" && key.find("poison") == std::string::npos) { count("unarmed:" + key); return; } // run for C03: only the poisoning verdicts
+		case_detail("%s :: last points: %s", sdesc.c_str(), tail.substr(0, 3000).c_str()); violation(g_prop + ":slab:" + key, what + " [" + std::string(sc.name) + ": " + sdesc + "]"); };
 	if(cx.ps.bad) { auto b = cx.ps.why.find('|'); flag(cx.ps.why.substr(0, b), cx.ps.why.substr(b + 1)); }
 	else if(cx.mon.bad) { auto b = cx.mon.why.find('|'); flag(cx.mon.why.substr(0, b), cx.mon.why.substr(b + 1)); }
 	else if(out.kind == sched::Outcome::Deadlock) flag("deadlock", "a pool call can never return: " + out.detail);
@@ -152,17 +188,20 @@ static void run_world(const char *mode, long long idx, const Scenario &sc, sched
 	else {
 		for(size_t i = 0; i < sched::g_smx.held.size(); i++) if(sched::g_smx.held[i]) flag("lock-left-held", "a pool mutex is still held after all calls returned");
 		// quiescent check of every remaining live block
-		for(auto &kv : cx.mon.live) { bool okp = true; for(size_t i = 0; i < kv.second.size; i++) if(((uint8_t *)kv.first)[i] != pat_byte(kv.second.pat, i)) okp = false; if(!okp) { flag("content-changed", "a live block's pattern is broken at the end of the run"); break; } }
+		for(auto &kv : cx.mon.live) { bool okp = true; for(size_t i = 0; i < cx.owned(kv.second); i++) if(((uint8_t *)kv.first)[i] != pat_byte(kv.second.pat, i)) okp = false; if(!okp) { flag("content-changed", "a live block's pattern is broken at the end of the run"); break; } }
+		for(auto &kv : cx.mon.live) { cx.poison_check(kv.first, kv.second, "at the end of the run (all calls returned)"); if(cx.mon.bad) { auto b = cx.mon.why.find('|'); flag(cx.mon.why.substr(0, b), cx.mon.why.substr(b + 1)); break; } }
 	}
 	for(auto &kv : cx.ps.maps) munmap(kv.second.raw, kv.second.rawlen);
 	if(out.kind == sched::Outcome::Ok) delete cx.pool;
-	g_ps = nullptr; g_pool_for_policy = nullptr; g_reentrant = false;
+	g_ps = nullptr; g_pool_alloc = nullptr; g_pool_free = nullptr; g_reentrant = false;
 }
+static void run_world(const char *mode, long long idx, const Scenario &sc, sched::Strategy &strat) { if(sc.poison) run_world_t<true>(mode, idx, sc, strat); else run_world_t<false>(mode, idx, sc, strat); }
 
 static std::vector<Scenario> scenarios() {
 	// per slab of the 128-byte class on this geometry: (4096 - overhead 128) / 128 = 31 objects; 64-byte class: 62
 	std::vector<std::pair<int, size_t>> full128; for(int i = 0; i < 31; i++) full128.push_back({i < 4 ? i : -1, 128});
 	std::vector<std::pair<int, size_t>> almost128; for(int i = 0; i < 30; i++) almost128.push_back({i < 4 ? i : -1, 128});
+	std::vector<std::pair<int, size_t>> few128; for(int i = 0; i < 4; i++) few128.push_back({i, 128});
 	return {
 		{"both-find-class-empty", {}, {{{0, 0, 64}, {1, 0, 0}}, {{0, 1, 64}, {1, 1, 0}}}, 4},
 		{"both-find-class-empty-then-free-cross", {}, {{{0, 0, 64}, {0, 2, 64}, {1, 1, 0}}, {{0, 1, 64}, {1, 0, 0}}}, 4},
@@ -173,6 +212,11 @@ static std::vector<Scenario> scenarios() {
 		{"three-workers-one-class", {}, {{{0, 0, 32}, {1, 0, 0}}, {{0, 1, 32}, {1, 1, 0}}, {{0, 2, 32}, {1, 2, 0}}}, 4},
 		{"reentrant-policy:both-find-class-empty", {}, {{{0, 0, 64}, {1, 0, 0}}, {{0, 1, 64}, {1, 1, 0}}}, 4, true},
 		{"reentrant-policy:large-alloc-and-free", {}, {{{0, 0, 5000}, {1, 0, 0}}, {{0, 1, 24}, {0, 2, 9000}, {1, 2, 0}}}, 4, true},
+		// poisoning policy: every poison/unpoison callback is a scheduling point; the requested bytes of every live block must be unpoisoned
+		{"poison:free-while-other-allocates-same-class", few128, {{{1, 0, 0}, {2, 1, 0}}, {{0, 4, 100}, {0, 5, 128}}}, 8, false, true},
+		{"poison:both-find-class-empty", {}, {{{0, 0, 60}, {1, 0, 0}}, {{0, 1, 64}, {1, 1, 0}}}, 4, false, true, 3},
+		{"poison:realloc-moves-while-other-allocates", few128, {{{3, 0, 300}, {3, 0, 90}}, {{0, 4, 120}, {1, 1, 0}}}, 8, false, true},
+		{"poison:large-and-small", {}, {{{0, 0, 5000}, {3, 0, 4100}, {1, 0, 0}}, {{0, 1, 8}, {0, 2, 9000}, {1, 2, 0}}}, 4, false, true, 3},
 	};
 }
 
@@ -182,12 +226,14 @@ int main(int argc, char **argv) {
 	rec.rule = "a case is one schedule of 2-3 workers running alloc/free/deallocate/realloc scripts on one pool (SchedMutex, 4K slabs so that classes run empty at once); context switches at every pool mutex operation, "
 		"hook point and policy callback; monitors: double hand-out, placement, block patterns, policy entered with a pool lock held, deadlock/livelock; distinct = (scenario, schedule signature)";
 	bool t = opt.thorough();
+	if(opt.replay_arg.rfind("prop=", 0) == 0) g_prop = opt.replay_arg.substr(5);
 	auto scs = scenarios();
 	unsigned di = 0;
 	for(auto &sc : scs) {
+		if(g_prop != "C05" && !sc.poison) continue;
 		std::string mode = std::string("dfs:") + sc.name;
 		if(!want_mode(mode.c_str()) || (opt.mode.empty() && (di++ % opt.nshards) != opt.shard)) continue;
-		int bound = sc.workers.size() > 2 ? (t ? 3 : 2) : (t ? 4 : 3);
+		int bound = sc.workers.size() > 2 ? (t ? 3 : 2) : (t ? (sc.quick_bound == 2 ? 3 : 4) : sc.quick_bound);
 		sched::Dfs dfs(bound);
 		long long i = 0; bool complete = false; uint64_t cap = t ? 1500000 : 60000;
 		do {
@@ -206,7 +252,7 @@ int main(int argc, char **argv) {
 			uint64_t cs = sr.next();
 			if(!want_case(i)) continue;
 			Rng r(cs);
-			Scenario sc; sc.name = "random-scripts"; sc.nslots = 12; sc.reentrant = r.chance(1, 3);
+			Scenario sc; sc.name = "random-scripts"; sc.nslots = 12; sc.reentrant = r.chance(1, 3); sc.poison = (g_prop != "C05") || r.chance(1, 2);
 			int nw = 2 + r.below(2);
 			for(size_t k = r.below(3) ? 0 : 28 + r.below(5); k; k--) sc.prefill.push_back({k <= 4 ? (int)k - 1 : -1, 128});
 			sc.workers.resize(nw);
